@@ -105,6 +105,7 @@ class Lifter(ast.NodeTransformer):
             nb.extend(r if isinstance(r, list) else [r])
         node.body = nb
         node.body.append(ast.Assign(targets=[_name('__lifted_class__', ast.Store())], value=_const(True)))
+        node.decorator_list = list(node.decorator_list) + [_L('WRAP_DUNDERS')]
         return node
 
     # ------------------------------------------------------------ functions
